@@ -299,3 +299,58 @@ func genProgram(r *rand.Rand) gProgram {
 	g.Prog.Pkgs = append(g.Prog.Pkgs, progPkg{Path: g.Local, Files: files})
 	return g
 }
+
+// cgo variants of a generated file: the pseudo-import "C" (with its preamble comment) is added to the
+// file's imports in one of the layouts gofmt keeps, and one declaration uses it. Nothing else changes,
+// so every other identifier denotes what it denoted before.
+var cgoLayouts = []string{"own-declaration-first", "group-first", "group-middle", "group-last", "own-declaration-last"}
+
+func cgoVariant(src string, layout string, n int) (out string, applied string) {
+	const preamble = "// #include <stdlib.h>\n"
+	use := fmt.Sprintf("\nvar cgo%d C.int\n\nfunc cgof%d() C.long { return C.long(cgo%d) + C.labs(-1) }\n", n, n, n)
+	open := strings.Index(src, "import (\n")
+	if open < 0 {
+		// a file without imports: "C" alone
+		i := strings.Index(src, "\n\n")
+		if i < 0 {
+			return src, ""
+		}
+		return src[:i+2] + preamble + "import \"C\"\n\n" + src[i+2:] + use, "alone"
+	}
+	closeAt := open + strings.Index(src[open:], ")\n")
+	specs := strings.SplitAfter(src[open+len("import (\n"):closeAt], "\n")
+	if len(specs) > 0 && specs[len(specs)-1] == "" {
+		specs = specs[:len(specs)-1]
+	}
+	cspec := "\t" + preamble + "\t\"C\"\n"
+	at := -1
+	switch layout {
+	case "own-declaration-first":
+		return src[:open] + preamble + "import \"C\"\n\n" + src[open:] + use, layout
+	case "own-declaration-last":
+		return src[:closeAt+2] + "\n" + preamble + "import \"C\"\n" + src[closeAt+2:] + use, layout
+	case "group-first":
+		at = 0
+	case "group-middle":
+		at = (len(specs) + 1) / 2
+		if at >= len(specs) {
+			at = 0 // a group of one spec has no middle: "C" goes before it
+			layout = "group-first"
+		}
+	case "group-last":
+		at = len(specs)
+	}
+	var b strings.Builder
+	b.WriteString(src[:open] + "import (\n")
+	for i, sp := range specs {
+		if i == at {
+			b.WriteString(cspec)
+		}
+		b.WriteString(sp)
+	}
+	if at == len(specs) {
+		b.WriteString(cspec)
+	}
+	b.WriteString(src[closeAt:] + use)
+	return b.String(), layout
+}
